@@ -85,7 +85,7 @@ def present(rng, nodes, p_full=0.4):
 
 
 def ops_line(ops, final="x"):
-    s = ["w%s:%s" % (o, E.tag_str(t)) for (o, t) in ops]
+    s = ["f" if o == "F" else "w%s:%s" % (o, E.tag_str(t)) for (o, t) in ops]     # ("F", None) = a flush() call
     if final:
         s.append(final)
     return ",".join(s) if s else "-"
